@@ -10,18 +10,8 @@ open Woodpile.Arena Woodpile.ReadN Woodpile.Hcobs Woodpile.Pipe
 
 /-! ### The decoder, piece by piece -/
 
-/-- the pieces as `decode_anchored` feeds them (`Method.borrow`) -/
-def borrowed (ds : List (List UInt8)) : List (Method × List UInt8) := ds.map (fun d => (Method.borrow, d))
-
 theorem borrowed_append (a b : List (List UInt8)) : borrowed (a ++ b) = borrowed a ++ borrowed b := by
   simp [borrowed]
-
-/-- The incremental decoder `Dec` (production parameters `p`) run over the given
-pieces and finished: the decoded bytes, or `none` if it reports an error. -/
-def decodePieces (p : Params) (ds : List (List UInt8)) : Option (List UInt8) :=
-  match Dec.output p (borrowed ds) with
-  | .ok d => some d
-  | .error _ => none
 
 theorem runPieces_nil (p : Params) (s : DecState) (acc : List Emit) :
     Dec.runPieces p [] s acc = (match Dec.finish s with | .ok () => .ok acc | .error e => .error e) := by
@@ -117,8 +107,46 @@ theorem cellBytes_map_byte (l : List UInt8) : cellBytes (l.map Cell.byte) = l :=
   | nil => rfl
   | cons a t ih => simp [cellBytes, ih]
 
+theorem foldl_opSize (es : List Emit) : ∀ acc : Nat,
+    es.foldl (fun acc e => acc + opSize e.op) acc = acc + es.foldl (fun acc e => acc + opSize e.op) 0 := by
+  induction es with
+  | nil => intro acc; simp
+  | cons e t ih => intro acc; simp only [List.foldl_cons, Nat.zero_add]; rw [ih (acc + _), ih (opSize _)]; omega
+
+theorem fillCells_length (id : Nat) (cells : List Cell) (bs : List UInt8) :
+    (fillCells id cells bs).length = cells.length := by
+  fun_induction fillCells id cells bs <;> simp_all
+
+theorem pipe_size_run (ops : List Op) : ∀ q : Pipe,
+    (Pipe.run q ops).size = q.size + ops.foldl (fun acc o => acc + opSize o) 0 := by
+  induction ops with
+  | nil => intro q; simp [Pipe.run]
+  | cons o t ih =>
+    intro q
+    have hfold : ∀ (l : List Op) (acc : Nat), l.foldl (fun acc o => acc + opSize o) acc
+        = acc + l.foldl (fun acc o => acc + opSize o) 0 := by
+      intro l
+      induction l with
+      | nil => intro acc; simp
+      | cons x xs ihx => intro acc; simp only [List.foldl_cons, Nat.zero_add]; rw [ihx (acc + _), ihx (opSize _)]; omega
+    have := ih (q.apply o)
+    simp only [Pipe.run, List.foldl_cons, Nat.zero_add] at this ⊢
+    rw [this, hfold t (opSize o)]
+    have hq : (q.apply o).size = q.size + opSize o := by
+      cases o with
+      | append bs => simp [Pipe.apply, Pipe.append, Pipe.size, opSize]
+      | register n => simp [Pipe.apply, Pipe.register, Pipe.size, opSize]
+      | fill id bs => simp [Pipe.apply, Pipe.fill, Pipe.size, opSize, fillCells_length]
+    rw [hq]; omega
+
+/-- `Rec.size` is `total_size()` of the pipe the decoder's emits build. -/
+theorem rec_size_is_pipe_size (rc : Rec) : rc.size = (Pipe.run Pipe.empty (rc.emits.map (·.op))).size := by
+  rw [pipe_size_run]
+  simp only [Rec.size, Pipe.size, Pipe.empty, List.length_nil, Nat.zero_add, List.foldl_map]
+
 theorem rec_size_eq (rc : Rec) (h : AllAppend rc.emits) : rc.size = (appended rc.emits).length := by
-  simp [Rec.size, run_appends _ h, Pipe.append, Pipe.size, Pipe.empty]
+  rw [rec_size_is_pipe_size]
+  simp [run_appends _ h, Pipe.append, Pipe.size, Pipe.empty]
 
 theorem rec_bytes_eq (rc : Rec) (h : AllAppend rc.emits) : rc.bytes = appended rc.emits := by
   simp [Rec.bytes, run_appends _ h, Pipe.append, Pipe.bytes, Pipe.empty, cellBytes_map_byte]
@@ -241,11 +269,6 @@ theorem runPieces_prefix (p : Params) : ∀ (more : List (Method × List UInt8))
 
 /-! ### Judges with a start-offset limit and a monotone size threshold -/
 
-/-- `Stop` at or after `limit`, `SkipRecord` when the decoded size is `tooBig`,
-else `KeepGoing`.  Both `keepGoingJudge` and `chunk_judge` are of this form. -/
-def threshJudge (limit : Option Nat) (tooBig : Nat → Bool) : Judge := fun _ c =>
-  if atLimit limit c.start then .stop else if tooBig c.size then .skipRecord else .keepGoing
-
 theorem keepGoingJudge_eq : keepGoingJudge = threshJudge none (fun _ => false) := by
   funext h c; simp [keepGoingJudge, threshJudge, atLimit]
 
@@ -258,24 +281,6 @@ theorem atLimit_mono (limit : Option Nat) (a b : Nat) (hab : a ≤ b) (h : atLim
   cases limit with
   | none => simp [atLimit] at h
   | some l => simp [atLimit] at h ⊢; omega
-
-/-- A returned record: decoded bytes and the byte range of its encoding. -/
-abbrev Rcd := List UInt8 × Nat × Nat
-
-/-- What a segment contributes to the output: nothing if it is empty, does not
-decode, or decodes to something too big. -/
-def contrib (p : Params) (tooBig : Nat → Bool) (sg : Seg) : List Rcd :=
-  if sg.bytes = [] then []
-  else match decodePieces p [sg.bytes] with
-    | some d => if tooBig d.length then [] else [(d, sg.start, sg.stop)]
-    | none => []
-
-/-- The records a reader with `threshJudge limit tooBig` must return for a list
-of segments: those that contribute, cut at the first segment (empty or not)
-that starts at or after the limit. -/
-def recordsT (p : Params) (limit : Option Nat) (tooBig : Nat → Bool) : List Seg → List Rcd
-  | [] => []
-  | sg :: rest => if atLimit limit sg.start then [] else contrib p tooBig sg ++ recordsT p limit tooBig rest
 
 /-- The incremental decoder does not care how a record is cut into pieces.
 (Consequence of `Dec` = `Spec.decode`, proved for C01/C07; see `splitIndep_of_spec`.) -/
@@ -492,7 +497,7 @@ def StepSpec (s1 : RdState) (r : Reader) (rc : Rec) (expected : List Rcd) (off' 
       (progress ∨ (rc.st ≠ .skipSentinel ∧ rc'.st = .skipSentinel))
 
 theorem size_of_no_emits (rc : Rec) (h : rc.emits = []) : rc.size = 0 := by
-  simp [Rec.size, h, Pipe.run, Pipe.size, Pipe.empty]
+  simp [Rec.size, h]
 
 theorem sentinel_busy (hs : SplitIndep p) (s2 s1 : RdState) (hc : s2.chunker = s1.chunker) (hm : s2.mem = s1.mem)
     (r : Reader) (rc : Rec)
@@ -745,6 +750,294 @@ theorem onChunk_data (hs : SplitIndep p) (hmono : ∀ a b, a ≤ b → tooBig a 
     · intro _
       exact ⟨rfl, rfl, rfl, ⟨cur ++ bs, hinv' _ rfl rfl rfl rfl, by simp [segsOf]⟩, Or.inl trivial⟩
 
+theorem stepSpec_mono (s1 : RdState) (r : Reader) (rc : Rec) (E : List Rcd) (off' : Nat) (after : List UInt8)
+    (pr pr' : Prop) (h : pr → pr') (so : StepOut)
+    (hso : StepSpec p limit tooBig s1 r rc E off' after pr so) :
+    StepSpec p limit tooBig s1 r rc E off' after pr' so := by
+  cases so with
+  | done res s' r' => exact hso
+  | «continue» s' r' rc' =>
+    obtain ⟨h1, h2, h3, h4, h5⟩ := hso
+    exact ⟨h1, h2, h3, h4, h5.imp h id⟩
+
+/-- Handling any chunk `pump` can return. -/
+theorem onChunk_spec (hs : SplitIndep p) (hmono : ∀ a b, a ≤ b → tooBig a = true → tooBig b = true)
+    (h0 : tooBig 0 = false) (s1 : RdState) (r : Reader) (rc : Rec) (cur after : List UInt8) (off : Nat)
+    (ch : Chunk) (hinv : RInv p limit tooBig off rc cur) (hok : ChunkOK ch (off + ch.bytes.length) after) :
+    StepSpec p limit tooBig s1 r rc (recordsT p limit tooBig (segsOf off rc cur (ch.bytes ++ after)))
+      (off + ch.bytes.length) after (ch.bytes ≠ []) (onChunk p (threshJudge limit tooBig) s1 r rc ch) := by
+  cases ch with
+  | sentinel o =>
+    simp only [ChunkOK, Chunk.bytes] at hok
+    subst hok
+    have := onChunk_sentinel p limit tooBig hs h0 s1 r rc cur after off hinv
+    exact stepSpec_mono p limit tooBig _ _ _ _ _ _ _ _ (fun _ => by simp [Chunk.bytes]) _ this
+  | eof =>
+    simp only [ChunkOK] at hok
+    subst hok
+    have := onChunk_eof p limit tooBig hs s1 r rc cur off hinv
+    exact stepSpec_mono p limit tooBig _ _ _ _ _ _ _ _ (fun h => absurd h id) _ this
+  | data o bs =>
+    simp only [ChunkOK, Chunk.bytes] at hok
+    obtain ⟨ho, hbs, hfs⟩ := hok
+    subst ho
+    have := onChunk_data p limit tooBig hs hmono s1 r rc cur after bs off hinv hbs hfs
+    exact stepSpec_mono p limit tooBig _ _ _ _ _ _ _ _ (fun _ => by simpa [Chunk.bytes] using hbs) _ this
+
+/-- **One call of `next_record_bytes`** (from any point inside it): on a
+well-behaved reader it never panics or fails; it returns the first record still
+expected — `recordsT` of the segments not yet accounted for — or `None` if there
+is none, and leaves the reader so that the calls after it are expected to return
+the rest. -/
+theorem run_spec (clamp : Nat) (hclamp : 2 ≤ clamp) (t : Tuning) (block : Nat) (hs : SplitIndep p)
+    (hmono : ∀ a b, a ≤ b → tooBig a = true → tooBig b = true) (h0 : tooBig 0 = false) :
+    ∀ (fuel : Nat) (s : RdState) (r : Reader) (rc : Rec) (cur : List UInt8),
+    WellBehaved r → RInv p limit tooBig s.chunker.offset rc cur →
+    2 * (s.chunker.buf ++ r.src).length + (if rc.st = .skipSentinel then 1 else 2) ≤ fuel →
+    WellBehaved (run clamp t p (threshJudge limit tooBig) block fuel s r rc).2.2 ∧
+    DonePost p limit tooBig
+      (recordsT p limit tooBig (segsOf s.chunker.offset rc cur (s.chunker.buf ++ r.src)))
+      (run clamp t p (threshJudge limit tooBig) block fuel s r rc).1
+      (run clamp t p (threshJudge limit tooBig) block fuel s r rc).2.1.chunker.offset
+      ((run clamp t p (threshJudge limit tooBig) block fuel s r rc).2.1.chunker.buf ++
+        (run clamp t p (threshJudge limit tooBig) block fuel s r rc).2.2.src) := by
+  intro fuel
+  induction fuel with
+  | zero =>
+    intro s r rc cur _ _ hf
+    exfalso; split at hf <;> omega
+  | succ fuel ih =>
+    intro s r rc cur hwb hinv hf
+    have hassert : decide (rc.start = rc.stop) = decide (rc.st = .skipSentinel) := by
+      by_cases hst : rc.st = .skipSentinel
+      · simp [hst, (hinv.idle hst).1]
+      · obtain ⟨b1, b2, b3, _⟩ := hinv.busy hst
+        have : 0 < cur.length := List.length_pos_iff.mpr b3
+        have : rc.start ≠ rc.stop := by omega
+        simp [hst, this]
+    have hp := pump_spec clamp hclamp t block s.chunker s.mem r hwb
+    obtain ⟨ch, hres, hsplit, hoff, hok⟩ := hp.ex
+    rw [hoff] at hok
+    have hspec := onChunk_spec p limit tooBig hs hmono h0
+      { s with chunker := (pump clamp t block s.chunker s.mem r).chunker,
+               mem := (pump clamp t block s.chunker s.mem r).mem }
+      (pump clamp t block s.chunker s.mem r).reader rc cur
+      ((pump clamp t block s.chunker s.mem r).chunker.buf ++ (pump clamp t block s.chunker s.mem r).reader.src)
+      s.chunker.offset ch hinv hok
+    rw [← hsplit] at hspec
+    have hstep : step clamp t p (threshJudge limit tooBig) block s r rc =
+        onChunk p (threshJudge limit tooBig)
+          { s with chunker := (pump clamp t block s.chunker s.mem r).chunker,
+                   mem := (pump clamp t block s.chunker s.mem r).mem }
+          (pump clamp t block s.chunker s.mem r).reader rc ch := by
+      unfold step
+      simp only [hassert, ne_eq, not_true_eq_false, if_false, hres]
+    unfold run
+    rw [hstep]
+    generalize onChunk p (threshJudge limit tooBig)
+          { s with chunker := (pump clamp t block s.chunker s.mem r).chunker,
+                   mem := (pump clamp t block s.chunker s.mem r).mem }
+          (pump clamp t block s.chunker s.mem r).reader rc ch = so at hspec ⊢
+    cases so with
+    | done res s' r' =>
+      obtain ⟨h1, h2, h3, h4⟩ := hspec
+      simp only
+      subst h1
+      rw [h2]
+      simp only
+      rw [hoff]
+      exact ⟨hp.wb, h4⟩
+    | «continue» s' r' rc' =>
+      obtain ⟨h1, h2, h3, ⟨cur', hinv', hE⟩, hprog⟩ := hspec
+      simp only
+      subst h1
+      have hoff' : s'.chunker.offset = s.chunker.offset + ch.bytes.length := by rw [h2]; exact hoff
+      have hbuf' : s'.chunker.buf = (pump clamp t block s.chunker s.mem r).chunker.buf := by rw [h2]
+      have hfuel : 2 * (s'.chunker.buf ++ (pump clamp t block s.chunker s.mem r).reader.src).length
+          + (if rc'.st = .skipSentinel then 1 else 2) ≤ fuel := by
+        have hl := congrArg List.length hsplit
+        rw [hbuf']
+        simp only [List.length_append] at hl hf ⊢
+        rcases hprog with hb | ⟨hb1, hb2⟩
+        · have : 0 < ch.bytes.length := List.length_pos_iff.mpr hb
+          split at hf <;> split <;> omega
+        · simp only [hb1, hb2, if_true, if_false] at hf ⊢
+          omega
+      rw [← hoff'] at hinv' hE
+      rw [← hbuf'] at hE
+      have := ih s' _ rc' cur' hp.wb hinv' hfuel
+      rw [hE] at this
+      exact this
+
+/-- One whole `next_record_bytes` call. -/
+theorem next_spec (clamp : Nat) (hclamp : 2 ≤ clamp) (t : Tuning) (block : Option Nat) (hs : SplitIndep p)
+    (hmono : ∀ a b, a ≤ b → tooBig a = true → tooBig b = true) (h0 : tooBig 0 = false)
+    (s : RdState) (r : Reader) (hwb : WellBehaved r) :
+    WellBehaved (next clamp t p (threshJudge limit tooBig) block s r).2.2 ∧
+    DonePost p limit tooBig
+      (recordsT p limit tooBig (segScan s.chunker.offset [] (s.chunker.buf ++ r.src)))
+      (next clamp t p (threshJudge limit tooBig) block s r).1
+      (next clamp t p (threshJudge limit tooBig) block s r).2.1.chunker.offset
+      ((next clamp t p (threshJudge limit tooBig) block s r).2.1.chunker.buf ++
+        (next clamp t p (threshJudge limit tooBig) block s r).2.2.src) := by
+  have := run_spec p limit tooBig clamp hclamp t (block.getD Woodpile.Gen.defaultBlockSize) hs hmono h0
+    (runFuel s r) s r Rec.fresh [] hwb (rinv_fresh p limit tooBig _)
+    (by simp only [runFuel, Rec.fresh, List.length_append, if_true]; omega)
+  simpa [next, segsOf, Rec.fresh] using this
+
+/-- Successive calls return the expected records in order, then `None` forever. -/
+theorem nextSeq_spec (clamp : Nat) (hclamp : 2 ≤ clamp) (t : Tuning) (block : Option Nat) (hs : SplitIndep p)
+    (hmono : ∀ a b, a ≤ b → tooBig a = true → tooBig b = true) (h0 : tooBig 0 = false) :
+    ∀ (n : Nat) (s : RdState) (r : Reader), WellBehaved r →
+    (nextSeq clamp t p (threshJudge limit tooBig) block n s r).1 =
+      expectedSeq (recordsT p limit tooBig (segScan s.chunker.offset [] (s.chunker.buf ++ r.src))) n := by
+  intro n
+  induction n with
+  | zero => intro s r _; cases recordsT p limit tooBig _ <;> rfl
+  | succ n ih =>
+    intro s r hwb
+    obtain ⟨hwb', hd⟩ := next_spec p limit tooBig clamp hclamp t block hs hmono h0 s r hwb
+    have hi := ih (next clamp t p (threshJudge limit tooBig) block s r).2.1
+      (next clamp t p (threshJudge limit tooBig) block s r).2.2 hwb'
+    simp only [nextSeq]
+    rw [hi]
+    generalize recordsT p limit tooBig (segScan s.chunker.offset [] (s.chunker.buf ++ r.src)) = E at hd ⊢
+    cases E with
+    | nil =>
+      obtain ⟨h1, h2⟩ := hd
+      rw [h1, h2]; rfl
+    | cons x rest =>
+      obtain ⟨d, a, b⟩ := x
+      obtain ⟨h1, h2⟩ := hd
+      rw [h1, h2]; rfl
+
 end Thresh
+
+/-! ### Resynchronisation: delimiters cut the stream into independent parts -/
+
+theorem segScan_no_stuff (start : Nat) (cur l : List UInt8) (h : findStuff l = none) :
+    segScan start cur l = [⟨cur ++ l, start, start + (cur ++ l).length⟩] := by
+  have := segScan_data l start cur [] (by simpa using h)
+  simp only [List.append_nil] at this
+  rw [this, segScan_nil]
+
+theorem segScan_cons_cons_ne (start : Nat) (cur : List UInt8) (a b : UInt8) (t : List UInt8)
+    (h : ¬ (a = FE ∧ b = FD)) : segScan start cur (a :: b :: t) = segScan start (cur ++ [a]) (b :: t) := by
+  simp only [segScan, h, if_false]
+
+theorem segScan_single (start : Nat) (cur : List UInt8) (a : UInt8) :
+    segScan start cur [a] = [⟨cur ++ [a], start, start + cur.length + 1⟩] := by
+  simp only [segScan]
+
+theorem segScan_append_stuff_aux : ∀ (n : Nat) (a : List UInt8), a.length ≤ n →
+    ∀ (start : Nat) (cur rest : List UInt8),
+    segScan start cur (a ++ FE :: FD :: rest) =
+      segScan start cur a ++ segScan (start + cur.length + a.length + 2) [] rest := by
+  intro n
+  induction n with
+  | zero =>
+    intro a ha start cur rest
+    have : a = [] := List.length_eq_zero_iff.mp (by omega)
+    subst this
+    simp [segScan_sentinel, segScan_nil]
+  | succ n ih =>
+    intro a ha start cur rest
+    cases a with
+    | nil => simp [segScan_sentinel, segScan_nil]
+    | cons x t =>
+      cases t with
+      | nil =>
+        have hx : ¬ (x = FE ∧ FE = FD) := by rintro ⟨_, h⟩; exact FE_ne_FD h
+        rw [show [x] ++ FE :: FD :: rest = x :: FE :: FD :: rest from rfl,
+          segScan_cons_cons_ne _ _ _ _ _ hx, segScan_sentinel, segScan_single]
+        simp [Nat.add_assoc]
+      | cons y t' =>
+        simp only [List.length_cons] at ha
+        by_cases hp : x = FE ∧ y = FD
+        · obtain ⟨rfl, rfl⟩ := hp
+          rw [show (FE :: FD :: t') ++ FE :: FD :: rest = FE :: FD :: (t' ++ FE :: FD :: rest) from rfl,
+            segScan_sentinel, segScan_sentinel, ih t' (by omega)]
+          simp only [List.length_nil, List.length_cons, Nat.add_zero, List.cons_append]
+          have e : start + cur.length + 2 + t'.length + 2 = start + cur.length + (t'.length + 1 + 1) + 2 := by
+            omega
+          rw [e]
+        · rw [show (x :: y :: t') ++ FE :: FD :: rest = x :: y :: (t' ++ FE :: FD :: rest) from rfl,
+            segScan_cons_cons_ne _ _ _ _ _ hp, segScan_cons_cons_ne _ _ _ _ _ hp,
+            show y :: (t' ++ FE :: FD :: rest) = (y :: t') ++ FE :: FD :: rest from rfl,
+            ih (y :: t') (by simp; omega)]
+          simp only [List.length_append, List.length_cons, List.length_nil]
+          congr 2
+          omega
+
+/-- Whatever precedes a delimiter is scanned on its own, and the scan restarts
+afresh after the delimiter. -/
+theorem segScan_append_stuff (a : List UInt8) (start : Nat) (cur rest : List UInt8) :
+    segScan start cur (a ++ FE :: FD :: rest) =
+      segScan start cur a ++ segScan (start + cur.length + a.length + 2) [] rest :=
+  segScan_append_stuff_aux a.length a (Nat.le_refl _) start cur rest
+
+theorem mem_recordsT_of_mem (p : Params) (limit : Option Nat) (tooBig : Nat → Bool) (segs : List Seg)
+    (sg : Seg) (d : List UInt8) (hmem : sg ∈ segs) (hne : sg.bytes ≠ [])
+    (hdec : decodePieces p [sg.bytes] = some d) (hsz : tooBig d.length = false)
+    (hlim : ∀ x ∈ segs, atLimit limit x.start = false) :
+    (d, sg.start, sg.stop) ∈ recordsT p limit tooBig segs := by
+  induction segs with
+  | nil => simp at hmem
+  | cons x rest ih =>
+    simp only [recordsT, hlim x (by simp), Bool.false_eq_true, if_false]
+    rcases List.mem_cons.mp hmem with rfl | h
+    · apply List.mem_append.mpr; left
+      simp [contrib, hne, hdec, hsz]
+    · apply List.mem_append.mpr; right
+      exact ih h (fun y hy => hlim y (by simp [hy]))
+
+theorem recordsT_length_le (p : Params) (limit : Option Nat) (tooBig : Nat → Bool) (segs : List Seg) :
+    (recordsT p limit tooBig segs).length ≤ segs.length := by
+  induction segs with
+  | nil => simp [recordsT]
+  | cons x rest ih =>
+    simp only [recordsT]
+    split
+    · simp
+    · have : (contrib p tooBig x).length ≤ 1 := by
+        simp only [contrib]; split
+        · simp
+        · split
+          · split <;> simp
+          · simp
+      simp only [List.length_append, List.length_cons]; omega
+
+theorem mem_expectedSeq (E : List Rcd) : ∀ (n : Nat) (d : List UInt8) (a b : Nat), E.length ≤ n →
+    (d, a, b) ∈ E → NextRes.some d a b ∈ expectedSeq E n := by
+  induction E with
+  | nil => intro n d a b _ h; simp at h
+  | cons x rest ih =>
+    intro n d a b hn h
+    obtain ⟨d', a', b'⟩ := x
+    cases n with
+    | zero => simp at hn
+    | succ n =>
+      simp only [expectedSeq]
+      rcases List.mem_cons.mp h with h | h
+      · simp only [Prod.mk.injEq] at h
+        obtain ⟨rfl, rfl, rfl⟩ := h
+        simp
+      · exact List.mem_cons_of_mem _ (ih n d a b (by simp at hn; omega) h)
+
+theorem expectedSeq_eq (E : List Rcd) : ∀ n : Nat,
+    expectedSeq E n = (E.take n).map (fun x => NextRes.some x.1 x.2.1 x.2.2)
+      ++ List.replicate (n - E.length) NextRes.none := by
+  induction E with
+  | nil =>
+    intro n
+    induction n with
+    | zero => rfl
+    | succ n ih => simp only [expectedSeq, ih]; simp [List.replicate_succ]
+  | cons x rest ih =>
+    intro n
+    obtain ⟨d, a, b⟩ := x
+    cases n with
+    | zero => simp [expectedSeq]
+    | succ n => simp only [expectedSeq, ih n]; simp
 
 end Woodpile.Stream
